@@ -95,6 +95,13 @@ class RecState(IState):
         return np.array([self.acc, float(self.count), self.last_ping])
 
 
+class InheritingRecState(RecState):
+    """A user-defined observer that INHERITS every process_<Event> callback from its parent class."""
+
+    def parse(self):
+        return np.array([self.acc, float(self.count), self.last_ping, 1.0])
+
+
 class RecWindowState(State):
     """The library's windowed State (fed by EventNewObservation rows) plus the recorder's log."""
 
@@ -113,6 +120,8 @@ def make_state(case):
     st_ = case.get("state", ["rec"])
     if st_[0] == "rec":
         return RecState()
+    if st_[0] == "rec-inherited":
+        return InheritingRecState()
     return RecWindowState(st_[1], st_[2], st_[3])
 
 
